@@ -122,6 +122,16 @@ CHECKS = {
          "out reassign='auto' inputs whose element staves/voices are not used by pitched notes. Two parts; variables not free in an instance are pinned.",
     technique="symbolic execution of real code (CrossHair/z3) vs rescaling/partition oracle",
     ref="DESIGN.md §2 C15"),
+ "C11": dict(
+    text="Symbolic execution of (a) estimate_symbolic_duration + symbolic_to_numeric_duration (round trip for a list of divisions, numeric "
+         "durations enumerated by the solver on a grid that contains every table value and its neighbours), (b) find_tie_split (pieces tile "
+         "the interval and evaluate to their length), (c) add_measures on a timeline with symbolic end, optional second time signature and "
+         "optional existing measure at symbolic positions (measures tile the timeline, lengths implied by the signature unless cut, existing "
+         "measure kept, consecutive numbering). Path trees exhausted per instance.",
+    note="tie_notes / find_tuplets / fill_rests / sanitize_part are NOT encoded (object-graph surgery over whole parts: path explosion); "
+         "that half of the property is outside the claim. Known finding KF-C11-estimate-tolerance (eps acceptance window).",
+    technique="symbolic execution of real code (CrossHair/z3) vs tiling / round-trip oracles",
+    ref="DESIGN.md §2 C11"),
 }
 NOT_APPLICABLE = {
  "C18": "float32/transcendental codec chain (log2, 2**x, mean/std, symbolic/symbolic division) over ~600 lines of vectorised numpy: non-linear with transcendental terms, z3 answers unknown; no sound bounded encoding within reach (DESIGN.md §2 C18)",
